@@ -16,6 +16,7 @@ package log
 
 import (
 	"fmt"
+	"io/ioutil"
 	"os"
 	"path/filepath"
 	"sort"
@@ -72,13 +73,17 @@ func segmentFile(dir string, prevIndex uint64) string {
 }
 
 func segments(dir string) ([]uint64, error) {
-	matches, err := filepath.Glob(filepath.Join(dir, "*.log"))
+	// note: dir is not a pattern, it may contain glob metacharacters
+	infos, err := ioutil.ReadDir(dir)
 	if err != nil {
 		return nil, err
 	}
 	var offs []uint64
-	for _, m := range matches {
-		m = filepath.Base(m)
+	for _, info := range infos {
+		m := info.Name()
+		if !strings.HasSuffix(m, ".log") {
+			continue
+		}
 		m = strings.TrimSuffix(m, ".log")
 		i, err := strconv.ParseUint(m, 10, 64)
 		if err != nil {
